@@ -179,6 +179,13 @@ def gen_case(seed, tier='quick'):
                     formulas or order)})
         elif r < 0.70:
             ops.append(persist())
+        elif r < 0.705:
+            # the live model becomes a tiny constants-only workbook (no
+            # names, no ranges, no formulae at all)
+            ops.append({'op': 'plain'})
+            ops.append(persist())
+            ops.append(restore(ops[-1]['path']))
+            ops[-1]['reuse'] = True
         elif r < 0.72 and world['names']:
             # from here on the live model is a sibling workbook: same names
             # and formula texts, other bindings
@@ -273,6 +280,12 @@ def _run(case, fs, amb):
             evaluated = True
             log.append([seq, 'eval_all', len(vals)])
             sig.append('E')
+        elif kind == 'plain':
+            model = worlds.build_model({'Sheet1!A1': 1, 'Sheet1!B1': 'two'})
+            compiled, evaluated = True, False
+            bump('probe:live_model_replaced_by_plain_workbook')
+            log.append([seq, 'plain'])
+            sig.append('P')
         elif kind == 'sibling':
             model = worlds.world_model(worlds.sibling_world(world))
             compiled, evaluated = True, False
